@@ -1057,3 +1057,194 @@ Proof.
     + right. exists f, l, cnt. rewrite C1. repeat split; try lia; try assumption; try (left; reflexivity).
     + left. repeat split; try reflexivity. intros f0 l0 c0 [Hx|[]]. inversion Hx; subst. lia.
 Qed.
+
+Lemma unsent_rel_an fuel cf now chs : forall p acc, rp_an (fst (unsent_rel fuel cf now chs p acc)) = rp_an p.
+Proof.
+  induction fuel as [|f IH]; intros p acc; cbn [unsent_rel]; [reflexivity|].
+  destruct (next_unsent p chs) as [n|]; [|reflexivity].
+  destruct (rp_hs p + 1 <? n); [unfold gen_hb; rewrite IH; reflexivity|].
+  destruct (lookup_relevant p n chs) as [c|]; [|rewrite IH; reflexivity].
+  unfold gen_hb. destruct (1 <? nfrags cf c); rewrite IH; reflexivity.
+Qed.
+Lemma req_loop_an fuel cf now chs : forall p acc, rp_an (fst (req_loop fuel cf now chs p acc)) = rp_an p.
+Proof.
+  induction fuel as [|f IH]; intros p acc; cbn [req_loop]; [reflexivity|].
+  destruct (zmin_list (rp_req p)) as [n|]; [|reflexivity].
+  match goal with |- context [lookup_relevant ?q n chs] => destruct (lookup_relevant q n chs) as [c|] end.
+  - unfold gen_hb. destruct (1 <? nfrags cf c); rewrite IH; reflexivity.
+  - rewrite IH. reflexivity.
+Qed.
+Lemma write_rel_an cf now chs p : rp_an (fst (write_rel cf now chs p)) = rp_an p.
+Proof.
+  unfold write_rel.
+  match goal with |- context [let '(p1, out1) := ?X in _] => destruct X as [p1 out1] eqn:E1 end.
+  rewrite req_loop_an.
+  destruct (next_unsent p chs).
+  - replace p1 with (fst (unsent_rel (S (length chs)) cf now chs p [])) by (rewrite E1; reflexivity).
+    apply unsent_rel_an.
+  - destruct (negb _); [inversion E1; reflexivity|].
+    destruct (time_for_hb p now); unfold gen_hb in E1; inversion E1; reflexivity.
+Qed.
+
+(* ------------------------------------------------------------------ the writer's answer to an ACKNACK *)
+Lemma req_add_in req set n : In n req \/ In n set -> In n (req_add req set).
+Proof.
+  revert req. induction set as [|x t IH]; intros req [H|H]; cbn; try assumption; try contradiction.
+  - apply IH. left. destruct (zmem x req); [assumption|apply in_or_app; left; assumption].
+  - destruct H as [->|H].
+    + apply IH. left. destruct (zmem n req) eqn:E; [|apply in_or_app; right; left; reflexivity].
+      unfold zmem in E. apply existsb_exists in E. destruct E as [y [Hy Ey]]. apply Z.eqb_eq in Ey. subst y. assumption.
+    + apply IH. right. assumption.
+Qed.
+
+Lemma on_acknack_G last cf now chs p base set count :
+  Contig chs last -> unfrag cf chs -> rp_rel p = true ->
+  0 <= rp_hs p <= last -> 0 <= rp_ha p -> Forall (fun n => 1 <= n <= last) (rp_req p) ->
+  Forall (fun n => 1 <= n <= last) set ->
+  let r := on_acknack cf now chs p base set count in
+  let q := fst (fst r) in let out := snd (fst r) in
+  rp_hbc p <= rp_hbc q /\ Forall (hdg (rp_hbc p) (rp_hbc q) last) out /\ Forall nshape out /\
+  (rp_hbc p < rp_hbc q -> has_hb (rp_hbc q) last out) /\
+  rp_an q = (if rp_an p <? count then count else rp_an p) /\ rp_static q = rp_static p /\
+  (rp_an p < count -> (exists n, In n set /\ rp_fr p < n) -> rp_hbc p < rp_hbc q).
+Proof.
+  intros Hc Hu Hrel Hhs Hha Hreq Hset. unfold on_acknack.
+  replace (rp_rel p && (rp_an p <? count)) with (rp_an p <? count) by (rewrite Hrel; reflexivity).
+  destruct (Z.ltb_spec (rp_an p) count) as [Hacc|Hnacc].
+  2:{ cbn. repeat split; try lia; try constructor. }
+  lazy beta iota zeta.
+  set (p1 := mkRP (rp_rel p) (rp_tl p) (rp_hs p) (if rp_ha p <? base - 1 then base - 1 else rp_ha p)
+                  (req_add (rp_req p) set) (rp_fr p) count (rp_nf p) (rp_hbc p) (rp_hbt p)).
+  assert (Hha1 : 0 <= rp_ha p1) by (cbn; destruct (rp_ha p <? base - 1) eqn:E; [apply Z.ltb_lt in E; lia|assumption]).
+  pose proof (write_rel_live last cf now chs p1 Hc Hu Hhs Hha1 (req_add_bound _ _ _ Hreq Hset)) as H. lazy zeta in H.
+  pose proof (write_rel_static cf now chs p1) as Hst.
+  pose proof (write_rel_an cf now chs p1) as Han.
+  pose proof (write_rel_shape cf now chs p1 Hu) as Hsh.
+  assert (E1 : rp_hbc p1 = rp_hbc p) by reflexivity.
+  assert (E3 : rp_fr p1 = rp_fr p) by reflexivity.
+  destruct (write_rel cf now chs p1) as [p2 out]. cbn [fst snd] in *.
+  destruct H as (W1 & W2 & W3 & W4 & W5 & W6 & _).
+  lazy zeta. cbn [fst snd].
+  split; [lia|]. split; [rewrite <- E1; assumption|]. split; [assumption|]. split; [rewrite <- E1; assumption|].
+  split; [rewrite Han; reflexivity|]. split; [rewrite Hst; reflexivity|].
+  intros _ [n [Hn Hfr]]. rewrite <- E1. apply W6. exists n. split; [|lia]. cbn. apply req_add_in. right. assumption.
+Qed.
+
+(* ------------------------------------------------------------------ shapes are invariant in the class *)
+Definition ShInv (s : state) : Prop :=
+  Forall nshape (s_net s) /\ (forall r w, s_rd s = Some r -> rd_wp r = Some w -> wp_frags w = []).
+
+Lemma Sh_poke cf s : unfrag cf (s_changes s) -> ShInv s -> ShInv (poke cf s).
+Proof.
+  intros Hu [H1 H2]. unfold poke. destruct (s_rp s) as [p|]; [|split; assumption].
+  pose proof (write_message_shape cf (s_now s) (s_changes s) p Hu) as Hs.
+  destruct (write_message cf (s_now s) (s_changes s) p) as [p1 out]. cbn [snd] in Hs. split; cbn.
+  - apply Forall_app; split; [assumption|apply Forall_filter; assumption].
+  - assumption.
+Qed.
+
+Lemma Sh_deliver cf s d : unfrag cf (s_changes s) -> ShInv s -> nshape d -> ShInv (deliver_dgram cf s d).
+Proof.
+  intros Hu HSh Hd. pose proof HSh as [H1 H2]. unfold deliver_dgram. destruct (dg_toR d) eqn:Edir.
+  - destruct (s_rdead s); [exact HSh|]. destruct (s_rd s) as [r|] eqn:Er; [|exact HSh].
+    destruct (rd_alive r); [|exact HSh].
+    destruct (deliver_subs_R cf r (dg_subs d) []) as [r1 out] eqn:E.
+    destruct (rd_wp r) as [w|] eqn:Ew.
+    + destruct (deliver_R_shape cf r w d r1 out Ew (H2 r w eq_refl Ew) Hd Edir E) as (w1 & A & B & C & Hc).
+      split; cbn.
+      * apply Forall_app; split; [assumption|]. apply Forall_filter.
+        destruct Hc as [(_ & _ & _ & -> & _)|(f & l & c & _ & _ & _ & _ & _ & ->)]; [constructor|].
+        constructor; [constructor|constructor].
+      * intros r' w' Hr' Hw'. injection Hr' as <-. congruence.
+    + rewrite (deliver_subs_R_nowp cf r (dg_subs d) [] Ew) in E. inversion E; subst. split; cbn.
+      * rewrite app_nil_r. assumption.
+      * intros r' w' Hr' Hw'. injection Hr' as <-. congruence.
+  - destruct Hd; cbn in Edir; try discriminate. cbn [dg_subs toW fold_left].
+    unfold deliver_sub_W. destruct (s_rp s) as [p|]; [|exact HSh].
+    assert (Hsh : Forall nshape (snd (fst (on_acknack cf (s_now s) (s_changes s) p b set cnt)))).
+    { unfold on_acknack. destruct (rp_rel p && _); [|constructor].
+      match goal with |- context [write_rel cf (s_now s) (s_changes s) ?q] =>
+        pose proof (write_rel_shape cf (s_now s) (s_changes s) q Hu) as Hs;
+        destruct (write_rel cf (s_now s) (s_changes s) q) as [p2 out] end. exact Hs. }
+    destruct (on_acknack cf (s_now s) (s_changes s) p b set cnt) as [[p1 out] sm]. cbn [fst snd] in Hsh.
+    assert (Hres : ShInv (send (set_rp s (Some p1)) out)).
+    { split; cbn; [|assumption]. apply Forall_app; split; [assumption|apply Forall_filter; assumption]. }
+    destruct (sm && _); [|exact Hres]. destruct Hres as [X Y]. split; assumption.
+Qed.
+
+Lemma Sh_pump cf fuel : forall s n, unfrag cf (s_changes s) -> ShInv s -> ShInv (fst (pump fuel cf s n)).
+Proof.
+  induction fuel as [|f IH]; intros s n Hu H; cbn [pump]; [assumption|].
+  destruct (s_net s) as [|d t] eqn:En; [assumption|].
+  assert (Hd : nshape d /\ Forall nshape t) by (destruct H as [H1 _]; rewrite En in H1; inversion H1; auto).
+  assert (Hu' : unfrag cf (s_changes (deliver_dgram cf (set_net s t) d))).
+  { destruct (core_proj _ _ (deliver_dgram_core cf (set_net s t) d)) as (C1 & _). rewrite C1. assumption. }
+  apply IH.
+  - destruct (core_proj _ _ (poke_core cf (deliver_dgram cf (set_net s t) d))) as (C1 & _). rewrite C1. assumption.
+  - apply Sh_poke; [assumption|]. apply Sh_deliver; [assumption| |tauto].
+    destruct H as [_ H2]. split; [tauto|assumption].
+Qed.
+
+Lemma Sh_step cf s a : 0 < fsz cf -> depth cf = 0 -> live_act cf a = true ->
+  unfrag cf (s_changes s) -> ShInv s -> ShInv (fst (step cf s a)) /\ unfrag cf (s_changes (fst (step cf s a))).
+Proof.
+  intros Hf Hd Ha Hu HS. unfold step.
+  assert (H : ShInv (fst (act cf s a)) /\ unfrag cf (s_changes (fst (act cf s a)))).
+  { destruct a; cbn [act]; try discriminate.
+    - cbn in Ha. apply andb_prop in Ha. destruct Ha as [H1 H2]. apply Z.leb_le in H1. apply Z.leb_le in H2.
+      pose proof (do_write_frame cf s key len sum) as (F1 & F2 & F3 & _).
+      pose proof (do_write_spec cf s key len sum) as Hw.
+      destruct (do_write cf s key len sum) as [s1 code]. cbn [fst snd] in *.
+      destruct Hw as [[-> _]|[chs1 (W1 & W2 & _ & _ & _ & W6)]]; [tauto|]. specialize (W6 Hd). subst chs1.
+      split.
+      + destruct HS as [X Y]. split; [rewrite F3; assumption|rewrite F2; assumption].
+      + rewrite W2. intros c Hc. apply in_app_or in Hc. destruct Hc as [Hc|[<-|[]]]; [apply Hu; assumption|].
+        apply nfrags_le1; [assumption|lia].
+    - cbn. tauto.
+    - destruct (nth_error (s_net s) i) as [d|] eqn:E; [|tauto]. cbn [fst]. split.
+      + apply Sh_deliver; [assumption| |].
+        * destruct HS as [X Y]. split; [apply Forall_remove_nth; assumption|assumption].
+        * destruct HS as [X _]. eapply Forall_nth_error; eassumption.
+      + destruct (core_proj _ _ (deliver_dgram_core cf (set_net s (remove_nth i (s_net s))) d)) as (C1 & _). rewrite C1. assumption.
+    - destruct (nth_error (s_net s) i) as [d|] eqn:E; [|tauto]. cbn [fst]. split; [|assumption].
+      destruct HS as [X Y]. split; [apply Forall_remove_nth; assumption|assumption].
+    - destruct (nth_error (s_net s) i) as [d|] eqn:E; [|tauto]. cbn [fst].
+      assert (Hd' : nshape d) by (destruct HS as [X _]; eapply Forall_nth_error; eassumption).
+      assert (H1 : ShInv (deliver_dgram cf (set_net s (remove_nth i (s_net s))) d)).
+      { apply Sh_deliver; [assumption| |assumption]. destruct HS as [X Y]. split; [apply Forall_remove_nth; assumption|assumption]. }
+      destruct (core_proj _ _ (deliver_dgram_core cf (set_net s (remove_nth i (s_net s))) d)) as (C1 & _).
+      destruct (core_proj _ _ (poke_core cf (deliver_dgram cf (set_net s (remove_nth i (s_net s))) d))) as (C2 & _).
+      destruct (core_proj _ _ (deliver_dgram_core cf (poke cf (deliver_dgram cf (set_net s (remove_nth i (s_net s))) d)) d)) as (C3 & _).
+      split.
+      + apply Sh_deliver; [rewrite C2, C1; assumption| |assumption]. apply Sh_poke; [rewrite C1; assumption|assumption].
+      + rewrite C3, C2, C1. assumption.
+    - pose proof (Sh_pump cf pump_fuel s 0 Hu HS) as Hp. pose proof (pump_core cf pump_fuel s 0) as Hc.
+      destruct (pump pump_fuel cf s 0) as [s1 n]. cbn [fst] in *. split; [assumption|].
+      destruct (core_proj _ _ Hc) as (C1 & _). rewrite C1. assumption.
+    - destruct (s_rd s) as [r|] eqn:Er; [|tauto]. destruct (rd_alive r); [|tauto]. cbn [fst]. split; [|assumption].
+      destruct HS as [X Y]. split; [assumption|]. intros r' w' Hr' Hw'. cbn in Hr'. injection Hr' as <-. cbn in Hw'.
+      apply (Y r w' Er Hw').
+    - destruct (s_rd s) as [r|] eqn:Er; [tauto|]. destruct (s_rdead s || _); [tauto|].
+      destruct (rxo_ok cf rel tl); cbn [fst].
+      + split.
+        * apply Sh_poke; [assumption|]. destruct HS as [X Y]. split; [assumption|].
+          intros r' w' Hr' Hw'. cbn in Hr'. injection Hr' as <-. cbn in Hw'. injection Hw' as <-. reflexivity.
+        * match goal with |- unfrag cf (s_changes (poke cf ?st)) =>
+            destruct (core_proj _ _ (poke_core cf st)) as (C1 & _); rewrite C1 end. assumption.
+      + split; [|assumption]. destruct HS as [X Y]. split; [assumption|].
+        intros r' w' Hr' Hw'. cbn in Hr'. injection Hr' as <-. cbn in Hw'. discriminate.
+    - destruct (is_acked _ _); cbn; tauto.
+    - destruct (poll (s_waits s)). cbn. tauto.
+    - destruct (s_rd s) as [r|] eqn:Er; [|tauto]. destruct (negb (rd_alive r)); [tauto|].
+      destruct (negb (rd_tl r)); [tauto|].
+      destruct (hist_received _); cbn [fst]; (split; [|assumption]); destruct HS as [X Y]; (split; [assumption|]);
+        intros r' w' Hr' Hw'; cbn in Hr'; injection Hr' as <-; cbn in Hw'; apply (Y r w' Er Hw').
+    - destruct (s_rd s) as [r|] eqn:Er; [|tauto]. destruct (poll (rd_hwaits r)). cbn [fst]. split; [|assumption].
+      destruct HS as [X Y]. split; [assumption|].
+      intros r' w' Hr' Hw'. cbn in Hr'. injection Hr' as <-. cbn in Hw'. apply (Y r w' Er Hw').
+    - tauto.
+    - tauto. }
+  destruct H as [H1 H2]. destruct (act cf s a) as [s1 o]. cbn [fst] in *. split.
+  - apply Sh_poke; assumption.
+  - destruct (core_proj _ _ (poke_core cf s1)) as (C1 & _). rewrite C1. assumption.
+Qed.
